@@ -748,16 +748,17 @@ class SecopClient(ProxyClient):
 
     def readParameter(self, module, parameter):
         """forced read over connection"""
+        entry = None
         try:
-            self.request(READREQUEST, self.identifier[module, parameter])
+            entry = self.queue_request(READREQUEST, self.identifier[module, parameter])
+            self.get_reply(entry)
         except SECoPError as e:
-            result = self.cache[module, parameter]
-            if e == result.readerror:
-                # the update was already done in the rx thread
-                return result
-            # e was not originating from a secop error message e.g. a connection problem
-            # -> we have to do the error update
-            self.updateValue(module, parameter, None, time.time(), e)
+            if entry is None or not entry[2]:
+                # e was not originating from a secop error message e.g. a connection problem
+                # -> we have to do the error update
+                self.updateValue(module, parameter, None, time.time(), e)
+            # else: e stems from an error reply, the update was already done in the rx thread
+            # (do not compare with the cache: it may already contain a newer update)
         return self.cache.get((module, parameter), None)
 
     def getParameter(self, module, parameter, trycache=False):
